@@ -167,7 +167,7 @@ func runC19Settings(c *Ctx, fields []driver.VerifField) {
 				obs = append(obs, L(ZI(0), menuTerm(fname, o.q)))
 			}
 		}
-		in := L(S("seq"), pfTable(strs), jsTable(jstrs), cfgTerm(cur), initT, L(opT...))
+		in := L(S("seq"), c19PfTable(strs), jsTable(jstrs), cfgTerm(cur), initT, L(opT...))
 		c.Case(gen, in, L(obs...), nt, "op:seq", "init:"+init)
 	}
 	jsonSafe := func() driver.VerifConfig {
@@ -335,7 +335,7 @@ func runC19Conc(c *Ctx, fields []driver.VerifField) {
 		}
 		close(start)
 		wg.Wait()
-		in := L(S("conc"), pfTable(strs), jsTable(strs), cfgTerm(cur), initT, L(opT...))
+		in := L(S("conc"), c19PfTable(strs), jsTable(strs), cfgTerm(cur), initT, L(opT...))
 		c.Case("conc", in, settingsState(fname), true, "op:conc", fmt.Sprintf("conc:%d", n), fmt.Sprintf("conc-http:%v", viaHTTP))
 		os.RemoveAll(dir)
 	}
